@@ -95,7 +95,7 @@ def run(tier: str, seed: int, replay=None) -> int:
     n = 1 if tier == "quick" else 10
     if replay and replay.get("loop") is not None:
         hists, loops = [], [replay["loop"]]
-    elif replay:
+    elif replay and replay.get("case") is not None:
         hists, loops = [replay["case"]], []
     else:
         r1, r2, r3 = rng.fork(1), rng.fork(2), rng.fork(3)
@@ -132,6 +132,6 @@ def run(tier: str, seed: int, replay=None) -> int:
     rep.extra["loops"] = {"cases": len(loops), "verdicts": verdicts}
     rep.extra["known_finding_instances"] = inst
     rep.samples = [{"case": h[:30]} for h in hists[-2:]] + [{"loop": p} for p in loops[:2]]
-    if not replay:
+    if not (replay and (replay.get("case") is not None or replay.get("loop") is not None)):
         c13.replay_findings(rep, PROP, model_ok, ACCEPT)
     return rep.finish()
